@@ -508,6 +508,25 @@ impl RecLayer {
             }
             s.id().into_u64()
         });
+        // walking up hop by hop with SpanRef::parent() must show the same spans as scope()
+        if let Some(s) = ctx.lookup_current() {
+            let by_scope: Vec<u64> = s.scope().map(|x| x.id().into_u64()).collect();
+            let mut by_parent = vec![s.id().into_u64()];
+            let mut c = s.parent();
+            while let Some(p) = c {
+                by_parent.push(p.id().into_u64());
+                if by_parent.len() > 64 {
+                    break;
+                }
+                c = p.parent();
+            }
+            if by_scope != by_parent {
+                self.log.err(format!(
+                    "layer rec#{}: walking up from the current span with SpanRef::parent() shows span ids {by_parent:x?}, its scope() shows {by_scope:x?} (a hop shows a span this layer's filter rejected, or hides one it accepted)",
+                    self.idx
+                ));
+            }
+        }
         let mut sc = vec![];
         if let Some(scope) = scope {
             for s in scope {
